@@ -4,8 +4,7 @@
     model from the document node in a fresh context that carries the bindings [bind]
     (xpath/src/lib.rs [query]).
 
-    [spelling_irrelevant_ok]: on a document satisfying [DocInv], with no default-namespace
-    binding, for a tree [a] without the namespace axis: two spellings of [a] -- any parentheses,
+    [spelling_irrelevant_ok]: on a document satisfying [DocInv], for a tree [a] without the namespace axis: two spellings of [a] -- any parentheses,
     abbreviated or unabbreviated steps, [//] or [/descendant-or-self::node()/], [n] or
     [position() = n], any white space -- give the same value, or both give no value.
 
@@ -90,7 +89,6 @@ Proof. reflexivity. Qed.
 Section Cong.
 Variable doc : xdoc.
 Variable ns : list (option str * str).
-Hypothesis Hns : ns_lookup ns None = None.
 Variable good : node -> Prop.
 Variable pax : XPathAst.axis_spec -> bool.
 Variable xpa : XPathSyntax.axis_spec -> bool.
@@ -216,7 +214,7 @@ Lemma position_call_eval x c : c_ns c = ns ->
   xeval doc position_call x c = (Ok (XNum (f64_of_N (get_position c))), c).
 Proof.
   intros Hc. unfold position_call. cbn [xeval map conc_qname]. unfold xcall. rewrite Hc.
-  unfold resolve_fn, expanded_name. cbn [bind]. rewrite Hns.
+  unfold resolve_fn, fn_key. cbn [bind].
   assert (E : find_func t_position = Some (0, Some 0)) by (vm_compute; reflexivity). rewrite E. cbn [len].
   reflexivity.
 Qed.
@@ -371,7 +369,6 @@ Section NormGood.
 Variable doc : xdoc.
 Hypothesis Hinv : DocInv doc.
 Variable ns : list (option str * str).
-Hypothesis Hns : ns_lookup ns None = None.
 Notation good := (good doc).
 Notation okq := (okq ns).
 Notation nstep := XPathSyntaxLemmas.nstep.
@@ -446,7 +443,7 @@ Qed.
 
 Theorem xeval_norm : forall a, xnons a = true -> forall n, good n -> okq (xeval doc a n) (xeval doc (norm a) n).
 Proof.
-  apply (xeval_norm_gen doc ns Hns good not_ns_axis nsfree (good_axis doc Hinv) (good_parent doc Hinv) (root_of_good doc Hinv)
+  apply (xeval_norm_gen doc ns good not_ns_axis nsfree (good_axis doc Hinv) (good_parent doc Hinv) (root_of_good doc Hinv)
            conc_axis_nons eq_refl).
   intros s0 first rest B c Hc GB Hn Hsteps x r Ex. apply (path_norm s0 first rest B c Hc GB Hn Hsteps x r Ex).
 Qed.
